@@ -149,7 +149,7 @@ pub fn c10(ctx: &Ctx, subj: &dyn DynSubject, ty: &Ty, rep: &mut Report) {
                 return Err(Fail::new(&format!("header-full:{}", expect_name(&x)), format!("{} -> expected {} from deserialize_full, but {}", what, expect_name(&x), e)).env(json!({"mutation": what, "mode": "full"})));
             }
             // ε-copy
-            let pl = Placed::new(&mutated, 4096, 0);
+            let pl = Placed::new(&mutated, 16384, 0);
             let r = guard(|| subj.eps(pl.bytes()).map(|o| o.val));
             let verdict = match &r {
                 Err(p) => Err(format!("panicked: {}", p)),
@@ -327,7 +327,7 @@ pub fn c11(ctx: &Ctx, subj: &dyn DynSubject, ty: &Ty, rep: &mut Report) {
                 Err(p) => return Err(Fail::new(&format!("trunc-full-panic:{}", panic_class(&p)), format!("prefix of {} of {} bytes: deserialize_full panicked: {}", k, len, p)).env(json!({"k": k}))),
             }
             // ε-copy on the exact prefix
-            let pl = Placed::new(&bytes[..k], 4096, 0);
+            let pl = Placed::new(&bytes[..k], 16384, 0);
             match guard(|| subj.eps(pl.bytes()).map(|o| o.val)) {
                 Ok(Err(_)) => {}
                 Ok(Ok(x)) => return Err(Fail::new("trunc-eps-value", format!("prefix of {} of {} bytes was ε-copy deserialized into {}", k, len, x.show())).env(json!({"k": k}))),
